@@ -1,11 +1,11 @@
-(* CorePhase2AcctKloop.v -- CoreInv's InvW together with the timer-descriptor frame TF
+(* CorePhase2K1Loop.v -- CoreInv's InvW together with the timer-descriptor frame TF
    through handler scripts and the callback dispatchers. *)
 From Coq Require Import List ZArith Bool Lia.
 From Ivv Require Import Core.Kernel Core.CoreTypes Core.CoreFd Core.CoreModel Core.CoreSpec
   Core.CoreInvBase Core.CoreInvDefs Core.CoreInvFd Core.CoreInvPoll Core.CoreInvReg Core.CoreInvObj
   Core.CoreInvTm Core.CoreInvLoop
-  Core.CorePhase2AcctTr Core.CorePhase2AcctFd Core.CorePhase2AcctKt Core.CorePhase2AcctKfd Core.CorePhase2AcctKact
-  Core.CorePhase2AcctKinv.
+  Core.CorePhase2K1Base Core.CorePhase2K1Fd Core.CorePhase2K1Act
+  Core.CorePhase2K1Inv.
 From Ivv Require Timer.HeapModel Timer.HeapSpec Timer.HeapProofs Timer.HeapBase Timer.HeapFacts Timer.HeapUnreg.
 Import ListNotations.
 Local Open Scope Z_scope.
